@@ -73,7 +73,7 @@ Definition Twins_ok (T : list twin) : bool := forallb (twin_ok T) T.
 Definition strip_try (n : string) : string :=
   if prefix "try_" n then substring 4 (String.length n - 4) n else n.
 
-Definition receivers : list string := ["self"; "$ access"; "$ access_mut"; "& self . 0"; "self . 0"; "$ accessor"].
+Definition receivers : list string := ["self"; "$ access"; "$ access_mut"; "& self . 0"; "self . 0"; "$ accessor"; "( * * self )"].
 
 Definition allowed_other : list (string * string) :=
   [ ("typed_stats", "self . any_stats ( )");                       (* trait objects report type-erased statistics *)
